@@ -89,7 +89,8 @@ def run_job(job, workdir):
             kw["events_per_temporary_file"] = job["events_per_file"]
 
         def go():
-            w = ndl.ndl(path, from_ratio(job["alpha"]), betas, from_ratio(job["lam"]),
+            src = (e for e in [(list(cs), list(os_)) for cs, os_ in events]) if job.get("as_generator") else path
+            w = ndl.ndl(src, from_ratio(job["alpha"]), betas, from_ratio(job["lam"]),
                         method=job["method"], weights=w0, n_jobs=job.get("n_jobs", 2),
                         n_outcomes_per_job=job.get("n_outcomes_per_job", 10),
                         remove_duplicates=pol, temporary_directory=workdir, **kw)
